@@ -1,5 +1,5 @@
-From RsdnsModel Require Import Base GenHeader Client.
-From RsdnsModel.Proofs Require Import ClientProofs.
+From RsdnsModel Require Import Base GenHeader Client Timed.
+From RsdnsModel.Proofs Require Import ClientProofs TimedProofs TimedGeneral.
 From RsdnsModel.Properties Require Import C13.
 Open Scope N_scope.
 Check (C13_strategy : forall std udp tcp,
@@ -9,4 +9,14 @@ Check (C13_strategy : forall std udp tcp,
   (forall d fl, udp = Ok (d, fl) ->
      (flag_tc fl = true -> query_raw_impl std 0 udp tcp = ([EvUdpExchange; EvTcpExchange], tcp)) /\
      (flag_tc fl = false -> query_raw_impl std 0 udp tcp = ([EvUdpExchange], Ok d)))).
-Print Assumptions C13_strategy.
+Check (C13_strategy_over_time : forall std smol q lifetime qt jit proc buf strategy arrs srv sends ev r t,
+  client_query_timed std smol q lifetime qt jit proc buf strategy arrs srv = (sends, ev, r, t) ->
+  (strategy = 2 -> ev = [EvUdpExchange]) /\
+  (strategy = 1 -> ev = [EvTcpExchange] /\ sends = []) /\
+  (strategy = 0 -> exists r1 t1 rest1,
+     exchange_of std smol q lifetime qt jit proc (deliver buf arrs) = (sends, r1, t1, rest1) /\
+     match r1 with
+     | Ok (d, fl) => if flag_tc fl then ev = [EvUdpExchange; EvTcpExchange] else ev = [EvUdpExchange] /\ r = Ok d /\ t = t1
+     | _ => ev = [EvUdpExchange] /\ t = t1
+     end)).
+Print Assumptions C13_strategy. Print Assumptions C13_strategy_over_time.
